@@ -95,6 +95,8 @@ static int apply(const char *rt, int v, fix_t *F, char *s1, char *s2, char *s3, 
         V(2, "A-nonsquare", 2, F->A.nrow = F->n + 1) V(3, "A-negative", 2, (F->A.nrow = -1, F->A.ncol = -1))
         V(4, "A-Stype", 2, F->A.Stype = SLU_DN) V(5, "A-Dtype", 2, F->A.Dtype = (SLU_DT == SLU_D ? SLU_S : SLU_D)) V(6, "A-Mtype", 2, F->A.Mtype = SLU_TRL)
         V(7, "B-ncol<0", 7, F->B.ncol = -1) V(8, "B-lda", 7, Bs->lda = F->n - 1)
+        /* a B that is consistently too short (what ?Create_Dense_Matrix gives with a wrong m), and an empty one */
+        V(9, "B-short", 7, (F->B.nrow = F->n - 1, Bs->lda = F->n - 1)) V(10, "B-empty", 7, (F->B.nrow = 0, Bs->lda = 1))
         return 0;
     }
     if (!strcmp(rt, "gssvx")) {
@@ -114,17 +116,20 @@ static int apply(const char *rt, int v, fix_t *F, char *s1, char *s2, char *s3, 
         V(24, "BOTH:R<=0,C<=0", 7, (F->opt.fact = FACTORED, *equed = BOTH, F->R[F->n / 2] = (real_t)0, F->C[F->n / 3] = (real_t)-1))
         V(25, "BOTH:C<=0", 8, (F->opt.fact = FACTORED, *equed = BOTH, F->C[0] = (real_t)0))
         V(26, "BOTH:R<=0", 7, (F->opt.fact = FACTORED, *equed = BOTH, F->R[F->n - 1] = (real_t)-2))
+        V(27, "B-short", 11, (F->B.nrow = F->n - 1, Bs->lda = F->n - 1)) V(28, "X-short", 12, (F->X.nrow = F->n - 1, Xs->lda = F->n - 1))
         return 0;
     }
     if (!strcmp(rt, "gstrs")) {
         V(0, "trans", 1, *tr = (trans_t)7) V(1, "L-nonsquare", 2, F->L.nrow = F->n + 1) V(2, "L-negative", 2, (F->L.nrow = -1, F->L.ncol = -1))
         V(3, "U-nonsquare", 3, F->U.nrow = F->n + 1) V(4, "B-lda", 6, Bs->lda = F->n - 1) V(5, "B-ncol<0", 6, F->B.ncol = -1)
+        V(6, "B-short", 6, (F->B.nrow = F->n - 1, Bs->lda = F->n - 1))
         return 0;
     }
     if (!strcmp(rt, "gsrfs")) {
         V(0, "trans", 1, *tr = (trans_t)7) V(1, "A-nonsquare", 2, F->A.nrow = F->n + 1) V(2, "A-Stype", 2, F->A.Stype = SLU_NR) V(3, "A-Dtype", 2, F->A.Dtype = (SLU_DT == SLU_D ? SLU_S : SLU_D))
         V(4, "L-nonsquare", 3, F->L.nrow = F->n + 1) V(5, "L-Stype", 3, F->L.Stype = SLU_NC) V(6, "U-nonsquare", 4, F->U.nrow = F->n + 1) V(7, "U-Stype", 4, F->U.Stype = SLU_NC)
         V(8, "B-lda", 10, Bs->lda = F->n - 1) V(9, "B-Stype", 10, F->B.Stype = SLU_NC) V(10, "X-lda", 11, Xs->lda = F->n - 1) V(11, "X-Stype", 11, F->X.Stype = SLU_NC)
+        V(12, "B-short", 10, (F->B.nrow = F->n - 1, Bs->lda = F->n - 1)) V(13, "X-short", 11, (F->X.nrow = F->n - 1, Xs->lda = F->n - 1))
         return 0;
     }
     if (!strcmp(rt, "gscon")) {
